@@ -224,19 +224,46 @@ def update_filter(chk, prog):
         s.v['name'] = 'projects/p/subscriptions/r0'
         ex.assume(s.isnull('deleted_at'))
         flt = z3.String('newfilter')
-        sub = ex.new_ptr(ex.new_struct(PB + 'Subscription', Name='projects/p/subscriptions/r0', Filter=flt))
+        sub = ex.new_ptr(ex.new_struct(PB + 'Subscription', Name='projects/p/subscriptions/r0', Filter=flt, PushConfig=ex.new_ptr(ex.new_struct(PB + 'PushConfig'))))
         FM = 'google.golang.org/protobuf/types/known/fieldmaskpb.FieldMask'
-        mask = ex.new_ptr(ex.new_struct(FM, Paths=ex.mkslice(['filter'])))
+        # the mask names the filter alone, or together with one other path, in either order
+        others = [None, 'push_config', 'labels', 'expiration_policy', 'message_retention_duration', 'enable_message_ordering', 'retry_policy', 'dead_letter_policy',
+                  'ack_deadline_seconds', 'no_such_field']
+        other = others[ex.choose(len(others))]
+        paths = ['filter'] if other is None else (['filter', other] if ex.choose(2) == 0 else [other, 'filter'])
+        mask = ex.new_ptr(ex.new_struct(FM, Paths=ex.mkslice(paths)))
         req = ex.new_ptr(ex.new_struct(PB + 'UpdateSubscriptionRequest', Subscription=sub, UpdateMask=mask))
         pre = db.snapshot()
         resp, err, code = call_handler(ex, db, h, req)
         valid = F_filter_valid()(zstr(flt))
         q = db.t['Subscription'][0]
-        d = lambda m: {'filter': replay.mval(m, flt)}
-        ob.verify(ex, 'rejected-filter-is-InvalidArgument', Implies(And(Not(ex.eq(flt, '')), Not(valid)), code == 3), d)
-        ob.verify(ex, 'rejected-filter-not-stored', Implies(err is not None, col_eq(ex, pre['Subscription'][0], q, 'filter')), d)
-        ob.verify(ex, 'accepted-filter-stored-verbatim', Implies(err is None, Or(And(ex.eq(flt, ''), q.isnull('filter')), And(valid, Not(q.isnull('filter')), ex.eq(q.v['filter'], flt)))), d)
-    chk.run('update:filter-validated-before-storing', prog, harness, bounds={'filter': 'arbitrary string; parser verdict = uninterpreted predicate'}, setup=world.setup)
+        d = lambda m: {'filter': replay.mval(m, flt), 'update_mask': paths, 'parser_accepts': bool(z3.is_true(m.eval(valid, model_completion=True)))}
+
+        def rp(m, desc):
+            # the parser verdict is uninterpreted in the encoding: the replay uses a text the real parser certainly rejects / accepts
+            text = '' if desc['filter'] == '' else ('attributes:k' if desc['parser_accepts'] else 'attributes:k AND ((')
+            rows = replay.rows_from_model(m, db.schema, pre)
+            camel = lambda x: ''.join(w.capitalize() if i else w for i, w in enumerate(x.split('_')))
+            scn = {'base_now': str(2 * 10**18), 'rows': rows,
+                   'ops': [{'op': 'grpc', 'service': 'subscriber', 'method': 'UpdateSubscription', 'timeout_ms': 3000,
+                            'request': {'subscription': {'name': 'projects/p/subscriptions/r0', 'filter': text, 'pushConfig': {}}, 'updateMask': ','.join(camel(x) for x in paths)}}]}
+            out = replay.run_scenarios([scn])[0]
+            path = replay.save_scenario('C08', 'update-filter', scn, dict(desc, replayed_filter=text))
+            if 'error' in out:
+                raise RuntimeError(out['error'][-400:])
+            r = out['results'][0]
+            f0 = [x.get('filter') for x in out['pre'].get('Subscription') or []]
+            f1 = [x.get('filter') for x in out['post'].get('Subscription') or []]
+            ok = r.get('code') in (None, 'OK')
+            if text and not desc['parser_accepts']:
+                return (ok or f0 != f1), path
+            if not ok:
+                return (f0 != f1), path
+            return (f1 != [text or None]), path
+        ob.verify(ex, 'rejected-filter-is-InvalidArgument', Implies(And(Not(ex.eq(flt, '')), Not(valid)), code == 3), d, replay=rp)
+        ob.verify(ex, 'rejected-filter-not-stored', Implies(err is not None, col_eq(ex, pre['Subscription'][0], q, 'filter')), d, replay=rp)
+        ob.verify(ex, 'accepted-filter-stored-verbatim', Implies(err is None, Or(And(ex.eq(flt, ''), q.isnull('filter')), And(valid, Not(q.isnull('filter')), ex.eq(q.v['filter'], flt)))), d, replay=rp)
+    chk.run('update:filter-validated-before-storing', prog, harness, bounds={'filter': 'arbitrary string; parser verdict = uninterpreted predicate', 'update mask': 'filter alone or with one other path, either order; the other request fields are absent'}, setup=world.setup)
 
 
 if __name__ == '__main__':
